@@ -225,10 +225,14 @@ func (v *PacketDslVisitorImpl) VisitFieldDefinitionWithAttribute(ctx *gen.FieldD
 			if padChar == "'\\x00'" {
 				padChar = "'\x00'"
 			}
-			f.Attr.(*model.FixedStringFieldAttribute).Padding = &model.Padding{
+			// a field typed by a MetaData entry shares that entry's attribute with every other
+			// field of the same type: pad a copy so the attribute applies to this field only
+			fixedString := *f.Attr.(*model.FixedStringFieldAttribute)
+			fixedString.Padding = &model.Padding{
 				PadChar: padChar,
 				PadLeft: strings.Contains(fieldAttr.PaddingAttribute().PADDING_ATTR().GetText(), "left"),
 			}
+			f.Attr = &fixedString
 		case fieldAttr.TagAttribute() != nil:
 			tagValue := fieldAttr.TagAttribute().DIGITS().GetText()
 			tagInt, _ := strconv.Atoi(tagValue)
